@@ -110,16 +110,26 @@ func checkC18(c *Ctx, r *Report) {
 						continue
 					}
 				}
-				if x.Op == token.LAND {
-					// len(arg) > N && arg[0] == '-'
-					if l, ok := stripParens(x.X).(*ast.BinaryExpr); ok && l.Op == token.GTR {
-						if k, isC := c.intConst(l.Y); isC {
-							if k == 2 {
-								clusterClause = a.Clause
+				if x.Op == token.LAND || x.Op == token.LOR {
+					// len(arg) >= N && arg[0] == '-'   (any equivalent spelling)
+					if atoms, pure := c.nnf(x, true, nil).conjuncts(); pure && len(atoms) == 2 {
+						minLen, dash := int64(-1), false
+						for _, at := range atoms {
+							if b, ok := c.boundOf(at); ok {
+								if call, isC := stripParens(b.X).(*ast.CallExpr); isC && c.calleeName(call) == "len" && b.Lo != nil && b.Hi == nil {
+									minLen = *b.Lo
+								}
+								if _, isIx := stripParens(b.X).(*ast.IndexExpr); isIx && b.Lo != nil && b.Hi != nil && *b.Lo == '-' && *b.Hi == '-' {
+									dash = true
+								}
 							}
-							if k == 1 {
-								unknownClause = a.Clause
-							}
+						}
+						if dash && minLen == 3 {
+							clusterClause = a.Clause
+							continue
+						}
+						if dash && minLen == 2 {
+							unknownClause = a.Clause
 							continue
 						}
 					}
@@ -238,9 +248,12 @@ func checkC18(c *Ctx, r *Report) {
 		idx++
 		name := c.calleeName(call)
 		want, tracked := spec.Wiring[name]
+		if name == "Prog.Dump" || c.cmdCallReaches(call, "Prog.Dump") {
+			if _, seen := pos["Dump"]; !seen {
+				pos["Dump"] = idx
+			}
+		}
 		switch name {
-		case "Prog.Dump":
-			pos["Dump"] = idx
 		case "OptOutput", "OptLogger":
 			r.bad("wiring", name, "the command passes "+name+": its output would no longer be the library's default streams", c.pos(call.Pos()))
 		}
@@ -425,4 +438,30 @@ func (c *Ctx) lastAssignBefore(fd *ast.FuncDecl, id *ast.Ident, pos token.Pos) s
 		return true
 	})
 	return out
+}
+
+// cmdCallReaches: the statically resolved callee (a function of the command) calls target, directly or through its own static callees.
+func (c *Ctx) cmdCallReaches(call *ast.CallExpr, target string) bool {
+	seen := map[string]bool{}
+	var visit func(name string, depth int) bool
+	visit = func(name string, depth int) bool {
+		if name == target {
+			return true
+		}
+		if depth > 4 || seen[name] || !strings.HasPrefix(name, "cmd.") {
+			return false
+		}
+		seen[name] = true
+		_, fd := c.findIn(c.Cmd, strings.TrimPrefix(name, "cmd."))
+		if fd == nil || fd.Body == nil {
+			return false
+		}
+		for _, n := range c.callsIn(fd.Body) {
+			if visit(n, depth+1) {
+				return true
+			}
+		}
+		return false
+	}
+	return visit(c.calleeName(call), 0)
 }
